@@ -23,6 +23,8 @@ use crate::{
 pub enum Kind {
     /// client moves to a new address (port only / full) and keeps sending from it
     Rebind { full_ip: bool },
+    /// full address change to a path with this much more one-way delay (handover to a slower link)
+    RebindSlow { extra_ms: u64 },
     /// two migrations, second at j + gap
     Double { gap: u64 },
     /// attacker replays a genuine client datagram from a third address ahead of the original
@@ -72,7 +74,7 @@ pub fn run(base: Instant, c: &Case, dump: bool) -> Out {
         let genuine = p.w.nodes[CLIENT].addr;
         let attacker = a(c.v4, 9);
         let new1 = match &c.kind {
-            Kind::Rebind { full_ip: true } => a(c.v4, 7),
+            Kind::Rebind { full_ip: true } | Kind::RebindSlow { .. } => a(c.v4, 7),
             _ => port_only(genuine, 100),
         };
         let new2 = port_only(genuine, 200);
@@ -95,7 +97,10 @@ pub fn run(base: Instant, c: &Case, dump: bool) -> Out {
                 }
                 let spto = p.server().map(|s| s.conn.verif_probe().spaces[2].pto).unwrap_or_default();
                 match &c.kind {
-                    Kind::Rebind { .. } | Kind::Double { .. } | Kind::DisabledRebind => {
+                    Kind::Rebind { .. } | Kind::RebindSlow { .. } | Kind::Double { .. } | Kind::DisabledRebind => {
+                        if let Kind::RebindSlow { extra_ms } = &c.kind {
+                            p.w.addr_latency.push((new1, Duration::from_millis(*extra_ms)));
+                        }
                         rx_at_rebind = p.server().map_or(0, |s| s.app.obs.rx.values().map(|r| r.bytes).sum());
                         apply_op(&mut p, &Op::Rebind(CLIENT, new1));
                         // make sure the client has something to say from the new address
@@ -168,6 +173,8 @@ pub fn run(base: Instant, c: &Case, dump: bool) -> Out {
         // ---- oracles
         let server_addr = p.w.nodes[SERVER].addr;
         // PATH_RESPONSE deliveries echoing a challenge sent to that address validate it
+        let mut sent_to_new = false;
+        let mut abandoned_reported = false;
         let mut challenges: BTreeMap<SocketAddr, Vec<u64>> = BTreeMap::new();
         let mut emitted: BTreeMap<u64, (usize, Vec<u8>, SocketAddr)> = BTreeMap::new();
         for r in &p.w.recs {
@@ -183,6 +190,21 @@ pub fn run(base: Instant, c: &Case, dump: bool) -> Out {
                                 if matches!(f, WFrame::PathChallenge(_) | WFrame::PathResponse(_)) && data.len() < 1200 {
                                     // allowed only when anti-amplification limits the new path
                                     viol.push(("path-validation-below-1200".into(), format!("server at {t:?} sent a {}-byte datagram carrying {f:?} to {dst}", data.len())));
+                                }
+                            }
+                        }
+                        // a genuine new path that answers every challenge as soon as it can (round trip
+                        // far below 3 x the probe timeout of a fresh path) must not be given up: after
+                        // its first datagram to the new address the server sends nothing but path
+                        // challenges to the old one
+                        if matches!(c.kind, Kind::RebindSlow { .. }) {
+                            if *dst == new1 {
+                                sent_to_new = true;
+                            } else if sent_to_new && *dst == genuine {
+                                let only_probe = decode(data, cid_len_of(&p.w, *dst)).iter().all(|(_, fr)| fr.iter().all(|f| matches!(f, WFrame::PathChallenge(_) | WFrame::Padding(_))));
+                                if !only_probe && !abandoned_reported {
+                                    abandoned_reported = true;
+                                    viol.push(("genuine-path-abandoned".into(), format!("server at {t:?} went back to the address the client left ({} bytes to {dst}) although the client keeps answering from the new, slower path", data.len())));
                                 }
                             }
                         }
@@ -216,7 +238,7 @@ pub fn run(base: Instant, c: &Case, dump: bool) -> Out {
         let final_remote = p.server().map(|s| s.conn.remote_address());
         let mut migrated = false;
         match &c.kind {
-            Kind::Rebind { .. } | Kind::Double { .. } => {
+            Kind::Rebind { .. } | Kind::RebindSlow { .. } | Kind::Double { .. } => {
                 let target = if matches!(c.kind, Kind::Double { .. }) && second { new2 } else { new1 };
                 if let Some(tv) = validated_new.get(&target) {
                     migrated = true;
@@ -348,7 +370,7 @@ pub fn main(args: &Args) -> ! {
     let mut rep = Report::new("C15", args, "fault_enumeration");
     let thorough = args.tier == Tier::Thorough;
     let dl = deadline(if thorough { 1500 } else { 50 });
-    rep.rule = "E3/E2 on real endpoints with data flowing both ways (W2) or in bulk (W6) and CID rotation on: at EVERY step index after the handshake the client's source address changes (port only on IPv4, port only on IPv6, full address change), a second migration follows after several gaps (also before the first is validated), an attacker delivers a copy of a genuine client datagram from a third address ahead of the original (client continuing / client silent afterwards), the server has migration disabled, or server datagrams reach the client from a foreign address; each combined with every single drop/dup/delay of one of the next 8 datagrams (those carrying PATH_CHALLENGE / PATH_RESPONSE). Oracles: once a PATH_RESPONSE echoing a challenge sent to the new address was delivered the server reports and uses only the new address and the workload completes; before that the 3x byte ledger bounds what goes there and challenge/response datagrams are >= 1200 bytes; a spoofed path is abandoned within 3 PTO; with migration not permitted nothing is sent to, and no data accepted from, the other address. Non-trivial = distinct trace hashes of runs in which the address event happened.".into();
+    rep.rule = "E3/E2 on real endpoints with data flowing both ways (W2) or in bulk (W6) and CID rotation on: at EVERY step index after the handshake the client's source address changes (port only on IPv4, port only on IPv6, full address change, full address change to a path with 60 / 250 ms more one-way delay), a second migration follows after several gaps (also before the first is validated), an attacker delivers a copy of a genuine client datagram from a third address ahead of the original (client continuing / client silent afterwards), the server has migration disabled, or server datagrams reach the client from a foreign address; each combined with every single drop/dup/delay of one of the next 8 datagrams (those carrying PATH_CHALLENGE / PATH_RESPONSE). Oracles: once a PATH_RESPONSE echoing a challenge sent to the new address was delivered the server reports and uses only the new address and the workload completes; before that the 3x byte ledger bounds what goes there and challenge/response datagrams are >= 1200 bytes; a spoofed path is abandoned within 3 PTO, a genuine slower path that keeps answering is not abandoned; with migration not permitted nothing is sent to, and no data accepted from, the other address. Non-trivial = distinct trace hashes of runs in which the address event happened.".into();
     let mut cases = vec![];
     // step counts of the baselines
     let mut steps_of = BTreeMap::new();
@@ -360,14 +382,14 @@ pub fn main(args: &Args) -> ! {
         let n = steps_of[&(format!("{wl:?}"), v4)].min(if thorough { 150 } else { 60 });
         let stride = 1;
         for at in (6..n).step_by(stride) {
-            let mut kinds = vec![Kind::Rebind { full_ip: false }, Kind::Rebind { full_ip: true }, Kind::Attacker { client_silent: false }, Kind::Attacker { client_silent: true }, Kind::DisabledRebind, Kind::ClientOffPath];
+            let mut kinds = vec![Kind::Rebind { full_ip: false }, Kind::Rebind { full_ip: true }, Kind::RebindSlow { extra_ms: 60 }, Kind::RebindSlow { extra_ms: 250 }, Kind::Attacker { client_silent: false }, Kind::Attacker { client_silent: true }, Kind::DisabledRebind, Kind::ClientOffPath];
             for gap in [1u64, 3, 8, 20] {
                 kinds.push(Kind::Double { gap });
             }
             for k in kinds {
 
                 cases.push(Case { v4, wl, kind: k.clone(), at, dev: None });
-                let devs = matches!(k, Kind::Rebind { .. } | Kind::Attacker { .. });
+                let devs = matches!(k, Kind::Rebind { .. } | Kind::Attacker { .. } | Kind::RebindSlow { extra_ms: 250 });
                 if devs && (thorough || (!v4 && at % 3 == 0)) {
                     for rel in 0..8 {
                         for alt in 0..ALTS.len() as u16 {
@@ -413,7 +435,7 @@ fn replay(args: &Args) -> ! {
     let r = &v["replay"];
     let ks = r["kind"].as_str().unwrap_or("");
     let num = |s: &str| -> u64 { s.chars().filter(|c| c.is_ascii_digit()).collect::<String>().parse().unwrap_or(0) };
-    let kind = if ks.starts_with("Rebind") { Kind::Rebind { full_ip: ks.contains("true") } } else if ks.starts_with("Double") { Kind::Double { gap: num(ks) } } else if ks.starts_with("Attacker") { Kind::Attacker { client_silent: ks.contains("true") } } else if ks.starts_with("Disabled") { Kind::DisabledRebind } else { Kind::ClientOffPath };
+    let kind = if ks.starts_with("RebindSlow") { Kind::RebindSlow { extra_ms: num(ks) } } else if ks.starts_with("Rebind") { Kind::Rebind { full_ip: ks.contains("true") } } else if ks.starts_with("Double") { Kind::Double { gap: num(ks) } } else if ks.starts_with("Attacker") { Kind::Attacker { client_silent: ks.contains("true") } } else if ks.starts_with("Disabled") { Kind::DisabledRebind } else { Kind::ClientOffPath };
     let c = Case {
         v4: r["v4"].as_bool().unwrap_or(false),
         wl: wl_from_str(r["wl"].as_str().unwrap_or("W6")),
